@@ -94,14 +94,20 @@ class MemoSolve:
     symbols (sound: the real routine is deterministic), so equal runs produce equal terms."""
 
     def __init__(self):
-        self.table = {}
+        self.entries = []          # (raw key, unknowns)
 
     def __call__(self, rec):
-        key = (tuple(tuple(lift(a).p for a in row) for row in rec["A"].rows), tuple(lift(v).p for v in rec["b"]))
-        hit = self.table.get(key)
-        if hit is not None:
-            rec["x"][:] = hit
-            return 0
-        self.table[key] = list(rec["x"])
+        # systems are compared modulo the equalities decided so far on this path (e.g. "the two grids coincide
+        # here"): stored systems are re-normalised at every lookup because equalities may have been decided since
+        c = ctx()
+        n = c.normal
+        raw = (tuple(tuple(lift(a).p for a in row) for row in rec["A"].rows), tuple(lift(v).p for v in rec["b"]))
+        norm = lambda k: (tuple(tuple(n(a) for a in row) for row in k[0]), tuple(n(v) for v in k[1]))
+        key = norm(raw)
+        for k0, x in self.entries:
+            if k0 == raw or (c.subst and norm(k0) == key):
+                rec["x"][:] = x
+                return 0
+        self.entries.append((raw, list(rec["x"])))
         SS.exact_solve(rec)
         return 0
